@@ -303,26 +303,29 @@ def rule_wiring(facts, rep):
     b = facts.body("anstyle_ls", F)
     top = hir.stmts_of(b["hir"])
     code = b["params"][0]["name"]
-    # early None: the leading run of `if <cond> { return None }` statements (an `a || b` condition is the same as two ifs)
-    got = set()
-    ok = True
+    # "no style" is exactly the empty description, `0` and `00` — by evaluation: those three give None, and their neighbours
+    # (longer runs of zeros, zero as one element of a list, codes with leading zeros) are ordinary descriptions
+    bit = {n_: v for n_, v, _ in ac.effect_consts(facts)}
+    want = {"": None, "0": None, "00": None, "000": (None, None, None, 0), "0000": (None, None, None, 0), "0;0": (None, None, None, 0),
+            "00;0": (None, None, None, 0), "0;00": (None, None, None, 0), "1;0": (None, None, None, 0), "1;00": (None, None, None, 0),
+            "01": (None, None, None, bit["BOLD"]), "001": (None, None, None, bit["BOLD"]), "0;1": (None, None, None, bit["BOLD"]),
+            "00;01": (None, None, None, bit["BOLD"])}
+    bad = []
+    for text, w in want.items():
+        try:
+            g = observed(facts, text)
+        except Unrecognised as ex:
+            g = ("not-evaluable", str(ex)[:80])
+        if g != w:
+            bad.append(f"parse({text!r}) = {g}, expected {w}")
+    rep.count(len(want))
+    rep.check(not bad, "wiring", b["path"], "no-style-for-empty-0-00", f"{len(want)} descriptions evaluated {bad[:3]}"[:400], loc(b))
     n_early = 0
     for st in top:
         s0 = hir.simp(st)
         if not (s0.get("k") == "if" and "e" not in s0 and hir.diverges(s0["t"])):
             break
         n_early += 1
-        r = hir.simp(hir.stmts_of(s0["t"])[-1])
-        ok = ok and r.get("k") == "ret" and hir.is_def(r.get("e"), "Option::None")
-        for p in hir.split_or(s0["c"]):
-            p = hir.simp(p)
-            if hir.is_call(p, "is_empty") and hir.is_local(p["args"][0], code):
-                got.add("")
-            elif p.get("k") == "bin" and p["op"] == "Eq" and hir.is_local(p["l"], code):
-                got.add(hir.lit_val(p["r"]))
-            else:
-                got.add("?" + hirpp.expr(p)[:40])
-    rep.check(ok and got == {"", "0", "00"}, "wiring", b["path"], "no-style-for-empty-0-00", f"{sorted(got)}", loc(b))
     # all-or-nothing numeric split
     s1 = top[n_early] if n_early < len(top) else {}
     ok = False
